@@ -148,9 +148,24 @@ def decorate(net, k):
                 members_i.append([x])
         if members_t:
             pp.create_group(net, members_t, members_i, name=f"g{k}")
-        if "name" in net.load.columns and net.load.name.notna().any() and net.load.name.is_unique:
-            nm = net.load.name.dropna().tolist()[: 2]
-            pp.create_group(net, ["load"], [nm], name=f"gr{k}", reference_columns="name")
+    # a group that lists its members by their (unique) names, over several element types
+    rt, rm = [], []
+    for j, et in enumerate(("load", "line", "trafo", "trafo3w", "sgen", "bus", "gen")):
+        if et not in net or not len(net[et]) or (k + j) % 3 == 0:
+            continue
+        tab = net[et]
+        if "name" not in tab.columns or tab["name"].isna().any():
+            # only missing names are filled in (existing ones may already be referenced)
+            names = tab["name"].astype(object) if "name" in tab.columns else pd.Series(None, index=tab.index, dtype=object)
+            for x in tab.index[names.isna().values]:
+                names.at[x] = f"{et}_{x}"
+            net[et]["name"] = names
+        if net[et]["name"].is_unique:
+            sel = _pick_many(net, et, k + j, 2)
+            rt.append(et)
+            rm.append([net[et].at[x, "name"] for x in sel])
+    if rt:
+        pp.create_group(net, rt, rm, name=f"gr{k}", reference_columns="name")
     return net
 
 
@@ -288,6 +303,8 @@ def execute(ep, ctx):
             ctx.probe("controller_present")
         if "res" in present:
             ctx.probe("result_tables_present")
+        if fam in ("merge_nets", "select_subnet"):
+            ctx.probe(fam + "_done")
         ctx.conclusive += 1
         ctx.features.append(f"{fam}|{present}|{ep['cfg']['template']}")
         sigs = []
